@@ -59,6 +59,10 @@ type Stream struct {
 	// fieldSeen is set once a field of the header block being received has
 	// been decoded, in whichever of the block's frames it was.
 	fieldSeen bool
+	// weReset is set when the server has sent RST_STREAM on the stream while
+	// the peer could still be sending on it: frames that were on their way
+	// then are expected, and ignored, rather than an error.
+	weReset bool
 
 	// content-length declared by the request, and the number of DATA bytes
 	// received so far, used to validate the two match (RFC 7540 8.1.2.6).
@@ -134,6 +138,7 @@ func NewStream(id uint32, win int32) *Stream {
 	strm.pseudoAuthority = false
 	strm.regularSeen = false
 	strm.fieldSeen = false
+	strm.weReset = false
 	strm.contentLength = 0
 	strm.hasContentLength = false
 	strm.recvBody = 0
